@@ -202,6 +202,11 @@ def analyse(ctx, C, fn, rep):
                     viol.append((desc, wit, fn.loc(e.ins) if e is not None and e.ins else loc, cs.kenv))
                 else:
                     unk.append('cannot prove: %s' % desc)
+    from props import C04_content
+    try:
+        C04_content.check(C, fn, name, dom, leaves, facts0, rep)
+    except Unsupported as e:
+        rep.unk('B8', name, str(e), loc=loc)
     sym = name
     if viol:
         # group by effect site: one finding per site
@@ -330,6 +335,9 @@ def run(ctx):
                 continue
             stale.check(rep, 'B7', f, pidx, {'a_vec_setm', 'a_buf_setm'})
     swap_direction(ctx, rep)
+    import wrappers
+    wrappers.check(ctx, rep, 'B5w')
+    rep.floor('B5w', 4)
     rep.floor('B5', 1)
     rep.floor('B6', 4)
     rep.floor('B2', 50)
